@@ -22,6 +22,16 @@ ASSUMPTIONS = [
     "expm(D) = diag(exp(d)) for diagonal D: off-diagonal entries must be exactly 0; diagonal entries are compared in the harness "
     "(exact rational arithmetic) with mp.exp(d) evaluated at 2p+40 bits, assumed accurate to 2^-(2p+30) relative "
     "(property C12), tolerance 2^(10-p) * max(1,||D||) relative",
+    "nonsingular matrices with negative real eigenvalues (the documented sqrtm([[-1,0],[0,1]]), sqrtm([[1,1],[1,0]])) are given to "
+    "sqrtm and powm(A, y/2) to reach the singular-iterate branch; they lie outside the property's quantifier (spectra away from the "
+    "branch cut): a failure there is recorded as not applicable (coverage: per_class negaxis), never as a violation",
+    "powm with non-integer exponent: X = powm(A, y/d), d in {2,4}, is decided as ||X^d - A^y||_F <= 2^(10-p) ||A||_F^y max(1,||A||_F) "
+    "(X^d and A^y exact), the tolerance of powm(A, y)",
+    "'moderate norm': eigenvalues between 2^-30 and 6*2^20 in modulus; 'diagonalizable' with a moderate eigenvector condition as in "
+    "the old classes: S D S^-1 with S a product of at most 2n elementary integer row operations, diagonal, or triangular with "
+    "eigenvalue gaps >= 1/2 and fill <= 3",
+    "a history is one public call repeated at ascending precisions in a process started for it; the property is required of every "
+    "stage (the value at precision p must not depend on what ran before at other precisions)",
 ]
 
 
@@ -201,7 +211,241 @@ def case_singular_logm(g):
             "judge": lambda c, res, ans: ("na", "out of the property's domain; terminated"), "nontrivial": False}
 
 
-PROGRAMS = ["expm[taylor]", "expm[pade]", "logm", "sqrtm", "powm", "cosm", "sinm"]
+# ---------------------------------------------------------------------------------------------------------------
+# inputs that reach the branches of sqrtm / logm / powm the right-half-plane classes above never take, and
+# ascending-precision histories in one fresh process
+# ---------------------------------------------------------------------------------------------------------------
+# mpmath/matrices/calculus.py, sqrtm(A, _may_rotate=2):
+#   (z)  A == 0                                                   -> returned as is
+#   (d)  det(A) numerically negative real                         -> _sqrtm_rot (u = j**0.3, sqrtm(u*A)/sqrt(u)) before iterating
+#   (i)  Denman-Beavers iteration converges                       -> the only branch the old generators reached (spectrum with
+#                                                                    real part >= 1, eigenvalue ratios <= 12)
+#   (s)  k > 6 and the step is still > 0.001*||Y||                -> _sqrtm_rot from inside the iteration, at prec+10, and again at
+#                                                                    prec+20 with _may_rotate = 0 (then the iteration must finish)
+#   (e)  ZeroDivisionError from inverse(Y) / inverse(Z)           -> _sqrtm_rot (singular iterate: an eigenvalue -1, -3+-2sqrt2, ...)
+# logm: repeated sqrtm at prec+10 until ||B - I|| < 1/8 (0 further roots for A near I, ~log2 log ||A|| otherwise), then the series.
+# powm: integer r -> A**r; 2r integer -> sqrtm(A)**(2r); otherwise expm(r*logm(A)).
+BRANCH_CLASSES = ["rot_det", "rot_slow_small", "rot_slow_big", "left_half", "near_identity", "negaxis"]
+
+
+def _fill(g, n, lams, cplx):
+    """exact diagonalizable matrix with the given eigenvalues: diagonal / upper triangular with distinct diagonal / S D S^-1"""
+    r = g.r
+    Z = S(0)
+    D = [[lams[i] if i == j else Z for j in range(n)] for i in range(n)]
+    how = r.choice(["similar", "similar", "upper", "diagonal"])
+    # triangular fill only when the eigenvalues are separated like those of the old classes (gap >= 1/2 against fill <= 3): a
+    # cluster of nearly equal eigenvalues coupled by O(1) entries is diagonalizable only with an enormous eigenvector condition
+    fl = [LA.frac(x) for x in lams]
+    separated = all(max(abs(fl[i][0] - fl[j][0]), abs(fl[i][1] - fl[j][1])) >= Fraction(1, 2) for i in range(n) for j in range(i))
+    if how == "upper" and separated:
+        for i in range(n):
+            for j in range(i + 1, n):
+                D[i][j] = S(r.randint(-3, 3), 0, r.randint(-2, 2) if cplx else 0, 0)
+        return "upper", D
+    if how == "diagonal" or n == 1:
+        return "diagonal", D
+    Sm, Si = g.unimodular(n)
+    return "similar", MGen.m_mul(MGen.m_mul(Sm, D), Si)
+
+
+def branch_matrix(g, cls, n):
+    """(shape, A): exact, diagonalizable, nonsingular, spectrum as the class says.  Entries need at most ~45 bits."""
+    r = g.r
+    pos = lambda: S(r.randint(1, 6))                                    # positive real eigenvalue
+    offax = lambda lo, hi: S(r.randint(lo, hi), 0, r.choice([-3, -2, -1, 1, 2, 3]), 0)   # not real
+    cplx = True
+    if cls == "rot_det":
+        # product of the spectrum negative real, no eigenvalue on the negative real axis: (a+bi) * t(-a+bi) = -t(a^2+b^2),
+        # the other eigenvalues positive or in conjugate pairs.  Only complex matrices can do this off the axis.
+        n = max(n, 2)
+        a, b, t = r.randint(-4, 4), r.choice([-3, -2, -1, 1, 2, 3]), r.choice([(1, 0), (1, -1), (2, 0), (3, 0), (3, -1)])
+        lams = [S(a, 0, b, 0), S(-a * t[0], t[1], b * t[0], t[1])]
+        while len(lams) < n:
+            if n - len(lams) >= 2 and r.random() < 0.5:
+                z = offax(-4, 4)
+                lams += [z, MGen.s_conj(z)]
+            else:
+                lams.append(pos())
+    elif cls in ("rot_slow_small", "rot_slow_big"):
+        # eigenvalue ratio >= 2^13: the iteration halves the large ratio once per step and is still moving after 7 steps
+        e = r.randint(13, 30) if cls == "rot_slow_small" else r.randint(13, 20)
+        cplx = r.random() < 0.3
+        lams = []
+        for i in range(n):
+            m = S(r.randint(1, 6), 0, r.randint(-3, 3) if cplx else 0, 0)
+            if i == 0 or (i > 1 and r.random() < 0.4):
+                m = S(m[0], -e, m[2], -e) if cls == "rot_slow_small" else S(m[0], e, m[2], e)
+            lams.append(m)
+        if n == 1:
+            lams = [S(lams[0][0], lams[0][1])]
+            cplx = False
+    elif cls == "left_half":
+        # eigenvalues in the open left half plane, off the axis (arg within pi - atan(1/6) of the cut), mixed with others
+        lams = [offax(-6, -1)] + [r.choice([offax(-6, -1), offax(-4, 4), pos()]) for _ in range(n - 1)]
+    elif cls == "near_identity":
+        # ||A - I|| < 1/8: logm takes one square root and goes straight to the series; expm scales by 2^-1 only
+        cplx = r.random() < 0.3
+        lams = [MGen.s_add(S(1), S(r.randint(-60, 60), -r.randint(10, 16), r.randint(-60, 60) if cplx else 0, -r.randint(10, 16)))
+                for _ in range(n)]
+    elif cls == "negaxis":
+        # nonsingular with negative real eigenvalues (sqrtm only: B^2 = A does not involve a branch of the logarithm; the
+        # documented examples sqrtm([[-1,0],[0,1]]) and sqrtm([[1,1],[1,0]]) are of this kind).  -1 makes the first
+        # Denman-Beavers iterate exactly singular; an odd number of negative eigenvalues makes det < 0
+        cplx = r.random() < 0.3
+        lams = [S(-r.choice([1, 1, 2, 3, 4, 9]))] + [r.choice([S(-r.choice([1, 2, 4])), pos(), offax(-4, 4) if cplx else pos()])
+                                                    for _ in range(n - 1)]
+    else:
+        raise ValueError(cls)
+    cplx = cplx or any(x[2] for x in lams)
+    shape, A = _fill(g, n, lams, cplx)
+    return shape, A
+
+
+HIST_PRECS = [30, 40, 53, 64, 80, 100, 113, 150, 200]
+
+
+def _bits(A):
+    b = 1
+    for row in A:
+        for x in row:
+            for m in (abs(x[0]), abs(x[2])):
+                while m and not m & 1:
+                    m >>= 1
+                b = max(b, m.bit_length())
+    return b
+
+
+def _mpow(A, k):
+    n = len(A)
+    P = [[S(1 if i == j else 0) for j in range(n)] for i in range(n)]
+    for _ in range(k):
+        P = MGen.m_mul(P, A)
+    return P
+
+
+def case_history(g, forced=None, single=False):
+    """one call (sqrtm / expm(logm) / powm with integer, half-integer or quarter-integer exponent / cosm,sinm) on one exactly
+    given matrix, evaluated at 2-3 ASCENDING precisions in one fresh process; every stage is decided at its own precision"""
+    r = g.r
+    fn = forced or r.choice(["sqrtm"] * 4 + ["explog"] * 3 + ["powm_half"] * 2 + ["powm_quarter", "powm_int", "cossin"])
+    n = r.choice([1, 2, 2, 2, 3, 3, 4, 5])
+    if fn in ("sqrtm", "powm_half"):
+        classes = BRANCH_CLASSES + ["right_half"]
+    elif fn in ("explog", "powm_quarter"):
+        classes = [c for c in BRANCH_CLASSES if c != "negaxis"] + ["right_half"]
+    else:
+        classes = ["left_half", "near_identity", "any"]
+    cls = r.choice(classes)
+    if cls in ("right_half", "any"):
+        shape, A = diagonalizable(g, n, 53, r.random() < 0.35, cls == "right_half")
+        if shape == "spd" and _bits(A) > 30:
+            shape, A = "diagonal", [[S(r.randint(1, 6)) if i == j else S(0) for j in range(n)] for i in range(n)]
+    else:
+        shape, A = branch_matrix(g, cls, n)
+    n = len(A)
+    cplx = LA.is_cplx_matrix(A)
+    need = _bits(A)
+    pool = [q for q in HIST_PRECS if q >= need] or [200]
+    precs = sorted(r.sample(pool, min(len(pool), r.choice([2, 3, 3]))))
+    if single:
+        precs = [r.choice(precs)]
+    g.note("hist_fn", fn)
+    g.note("hist_class", cls)
+    g.note("hist_shape", shape)
+    g.note("hist_precs", len(precs))
+    g.note("field", "complex" if cplx else "real")
+    call = {"op": {"sqrtm": "sqrtm", "explog": "explog", "cossin": "cossin"}.get(fn, "powm")}
+    y = den = None
+    if fn == "explog":
+        call["method"] = r.choice(["taylor", "pade"])
+    elif fn == "powm_int":
+        y, den = r.randint(0, 5), 1
+        call["k"] = y
+    elif fn == "powm_half":
+        y, den = r.choice([1, 1, 3, 5]), 2
+        call["r"] = [y, den]
+    elif fn == "powm_quarter":
+        y, den = r.choice([1, 1, 3]), 4
+        call["r"] = [y, den]
+    task = {"op": "hist", "prec": precs[0], "precs": precs, "cplx": cplx, "A": toks_of(A), "call": call}
+    if not single:
+        task["fresh"] = True
+    At = flat(task["A"])
+
+    def stage_line(q, o):
+        if fn == "sqrtm":
+            return None if has_nonfinite(o["X"]) else "cert_sqrtm %d %d %s %s" % (n, q, At, flat(o["X"]))
+        if fn == "explog":
+            return None if has_nonfinite(o["X"], o["L"]) else "cert_close %d %d %s %s" % (n, q, At, flat(o["X"]))
+        if fn == "cossin":
+            return None if has_nonfinite(o["C"], o["S"]) else "cert_cossin %d %d %s %s %s" % (n, q, At, flat(o["C"]), flat(o["S"]))
+        if has_nonfinite(o["X"]):
+            return None
+        if den == 1:
+            return "cert_powm %d %d %d %s %s" % (n, y, q, At, flat(o["X"]))
+        # X = powm(A, y/den): X^den is formed exactly here (integers) and must be A^y within the tolerance of powm(A, y)
+        Xd = _mpow(LA.from_toks(o["X"]), den)
+        return "cert_powm %d %d %d %s %s" % (n, y, q, At, flat(toks_of(Xd)))
+
+    def lines(c, res):
+        ls = {}
+        for t, (q, st) in enumerate(zip(precs, ((res or {}).get("ok") or {}).get("stages", []))):
+            if "ok" in st:
+                l = stage_line(q, st["ok"])
+                if l:
+                    ls["cert%d" % t] = l
+        return ls
+
+    what = {"sqrtm": "sqrtm(A)^2 differs from A", "explog": "expm(logm(A)) differs from A", "cossin": "cosm(A)^2 + sinm(A)^2 differs from I",
+            "powm_int": "powm(A,%s) differs from the exact power" % y, "powm_half": "powm(A,%s/2)^2 differs from the exact A^%s" % (y, y),
+            "powm_quarter": "powm(A,%s/4)^4 differs from the exact A^%s" % (y, y)}[fn]
+
+    def judge(c, res, ans):
+        if "exc" in res:
+            return "violates", "history raised %s: %s" % (res["exc"], res.get("msg"))
+        stages = res["ok"]["stages"]
+        bad, known = [], []
+        for t, (q, st) in enumerate(zip(precs, stages)):
+            if single:
+                before = "single call"
+            elif t:
+                before = "after the same call at prec %s in the same process" % ", ".join(map(str, precs[:t]))
+            else:
+                before = "first call of a fresh process"
+            if "exc" in st:
+                msg = "%s raised %s at prec %d (%s): %s" % (fn, st["exc"], q, before, st.get("msg"))
+                # the Denman-Beavers iteration stagnates above its stopping tolerance (defect family MF1): only when the
+                # spectrum is wide by construction, and only this exception
+                if st["exc"] == "NoConvergence" and cls in ("rot_slow_small", "rot_slow_big"):
+                    known.append(msg)
+                else:
+                    bad.append(msg)
+                continue
+            v = ans.get("cert%d" % t)
+            if v is None:
+                bad.append("non-finite entries in the output at prec %d (%s)" % (q, before))
+            elif v != "V:ok":
+                bad.append("%s at prec %d, %s: %s" % (what, q, before, v))
+        if cls == "negaxis" and (bad or known):
+            return "na", "eigenvalue on the negative real axis (outside the property's quantifier): " + (bad + known)[0]
+        if bad:
+            return "violates", bad[0]
+        if known:
+            return "violates", known[0], "sqrtm_noconvergence_wide_spectrum"
+        return "ok", None
+    site = {"sqrtm": "calculus.sqrtm", "explog": "calculus.expm(logm)[%s]" % call.get("method"), "cossin": "calculus.cosm/sinm"}.get(fn, "calculus.powm")
+    return {"task": task, "site": site + ("" if single else "[ascending-precision history]"),
+            "cls": ("branch:" if single else "history:") + cls + ":" + fn, "lines": lines, "judge": judge,
+            "nontrivial": n >= 2, "noresult_judge": _noresult}
+
+
+def case_branch_single(g):
+    """the branch classes at a single precision in the shared worker processes (as the cases above)"""
+    return case_history(g, single=True)
+
+
+PROGRAMS = ["expm[taylor]", "expm[pade]", "logm", "sqrtm", "powm", "cosm", "sinm", "powm[sqrtm branch]", "powm[expm(r logm) branch]"]
 
 
 def build_cases(g, n_cases):
@@ -239,13 +483,28 @@ def run(ctx):
             print("replaying recorded task on the real code:", json.dumps(LA.replay_task(fi["task"]))[:2000])
     for c in build_cases(g, n_cases):
         eng.add(c)
+    # separate PRNG stream (the cases above stay what they were): branch-reaching inputs, singly and as ascending-precision
+    # histories in a fresh process each; every sqrtm branch class is forced at least twice
+    gh = MGen(ctx.seed * 1000003 + 3232, max_n=6, max_prec=200)
+    n_hist, n_single = (60, 60) if ctx.quick else (1500, 1500)
+    for i in range(n_hist):
+        eng.add(case_history(gh))
+    for i in range(n_single):
+        eng.add(case_branch_single(gh))
     out = eng.run()
+    for k, v in gh.hist.items():
+        g.hist["branch/history:" + k] = v
     cov = LA.coverage_of(out, g,
         "cases from one seeded PRNG: diagonalizable matrices built exactly (unimodular similarity of a diagonal matrix with "
         "integer/half-integer, optionally complex eigenvalues; SPD/HPD; diagonal; upper triangular with distinct diagonal), sizes "
         "1..6, real and complex, spectrum in the right half plane for logm/sqrtm, precisions 30..200, both expm methods, powm "
         "k=0..5; each factor of a composite identity is computed by the real routine, read exactly, and the identity is decided in "
-        "exact arithmetic; plus 3 out-of-domain probes (logm of exactly singular matrices, 8 s limit) recorded under noresult",
+        "exact arithmetic; plus 3 out-of-domain probes (logm of exactly singular matrices, 8 s limit) recorded under noresult; plus "
+        "branch-reaching classes (det negative real off the axis -> rotation before iterating; eigenvalue ratio 2^13..2^30 -> "
+        "rotation from inside the Denman-Beavers iteration, twice; left half plane off the axis; ||A-I|| < 1/8; for sqrtm and the "
+        "sqrtm branch of powm also negative real eigenvalues -> singular iterate / negative determinant), powm with half- and "
+        "quarter-integer exponents (both non-integer branches), each also run as a history: the same call at 2-3 ascending "
+        "precisions in one fresh process, every stage decided at its own precision",
         len(PROGRAMS))
     cov["checker_requests"] = eng.nlines
     return {"coverage": cov, "failing_inputs": out["failing"], "disagreements": []}
